@@ -388,7 +388,7 @@ func (h *histRun) opSession(op string) {
 		case "server":
 			return &idpFault{status: 503, body: "down"}
 		case "broken":
-			return &idpFault{status: 200, body: "<html>not json</html>"}
+			return brokenTokenResponse(clientShape)
 		}
 		return nil
 	}
